@@ -50,3 +50,112 @@ def outerTrace {R : Type} (dec : List Char → R) (is : List InnerOut) : List (O
 termination_by is.length
 
 end Oas3.EventStream
+
+/-! ## wake accounting: the same loop as seen by a task that is re-polled only after a wake-up
+
+`poll_next` returning `Poll::Pending` promises that the waker of the context will be woken.  There
+are two ways to keep the promise: the inner stream answered `Pending` in this very call (then IT
+took the waker: `innerPending`), or `poll_next` wakes the waker itself before returning
+(`wokeSelf`).  A `Pending` with neither is a lost wake-up: under an executor the consumer sleeps
+forever, whatever is still buffered. -/
+namespace Oas3.EventStream
+open Oas3.Sse
+
+/-- one step of the scripted transport -/
+inductive Step
+  | chunk (bytes : List UInt8)   -- `Ready(Some(chunk))`
+  | pendLater                    -- `Pending`; the transport keeps the waker and wakes it after the call
+  | pendWake                     -- `Pending`; the transport wakes the waker before it returns
+  deriving Repr
+
+def Step.toIn : Step → In
+  | .chunk b => .chunk b
+  | .pendLater => .pending
+  | .pendWake => .pending
+
+/-- inner poll answers, `pending` with what the transport did to the waker during the call -/
+inductive InnerW
+  | pending (woke : Bool)
+  | ev (data : List Char)
+  | utf8Err
+  | done
+  | panic
+  deriving DecidableEq, Repr
+
+def InnerW.erase : InnerW → InnerOut
+  | .pending _ => .pending
+  | .ev d => .ev d
+  | .utf8Err => .utf8Err
+  | .done => .done
+  | .panic => .panic
+
+/-- `innerRun` with the wake bookkeeping of the transport -/
+def innerRunW (st : St) : List Step → List InnerW
+  | [] => if st.bytes.isEmpty then [.done] else [.utf8Err, .done]
+  | .pendLater :: rest => .pending false :: innerRunW st rest
+  | .pendWake :: rest => .pending true :: innerRunW st rest
+  | .chunk bs :: rest =>
+    match feedBytes st bs with
+    | none => [.panic]
+    | some (st', evs) => evs.map .ev ++ innerRunW st' rest
+
+/-- result of ONE call of `poll_next` -/
+structure Poll (R : Type) where
+  out : OuterOut R
+  rest : List InnerW
+  innerPending : Bool := false    -- the inner stream answered `Pending` in this call: it holds the waker
+  wokeSelf : Bool := false        -- `poll_next` called `wake_by_ref` itself
+  transportWoke : Bool := false   -- the transport woke the waker during the call
+
+/-- `EventStream::poll_next` (today's code: no budget, never wakes itself) -/
+def pollStep {R : Type} (dec : List Char → R) : List InnerW → Poll R
+  | [] => { out := .done, rest := [] }
+  | .ev d :: rest => if d.isEmpty then pollStep dec rest else { out := .item (dec d), rest }
+  | .utf8Err :: rest => { out := .sseErr, rest }
+  | .done :: rest => { out := .done, rest }
+  | .pending w :: rest => { out := .pending, rest, innerPending := true, transportWoke := w }
+  | .panic :: _ => { out := .panic, rest := [] }
+
+/-- the loop with a skip budget of `n` empty-data events per call (`k` = skipped so far in this
+call); `selfWake` says whether it wakes the waker before giving up.  NOT today's code: the subject
+of the witnesses `budget_*` in `Props/C20`. -/
+def pollBudget {R : Type} (n : Nat) (selfWake : Bool) (dec : List Char → R) : Nat → List InnerW → Poll R
+  | _, [] => { out := .done, rest := [] }
+  | k, .ev d :: rest =>
+    if d.isEmpty then
+      if k + 1 == n then { out := .pending, rest, wokeSelf := selfWake }
+      else pollBudget n selfWake dec (k + 1) rest
+    else { out := .item (dec d), rest }
+  | _, .utf8Err :: rest => { out := .sseErr, rest }
+  | _, .done :: rest => { out := .done, rest }
+  | _, .pending w :: rest => { out := .pending, rest, innerPending := true, transportWoke := w }
+  | _, .panic :: _ => { out := .panic, rest := [] }
+
+/-- what an executor-driven consumer observes -/
+inductive Seen (R : Type)
+  | out (o : OuterOut R) (innerPending woke : Bool)
+  | stalled        -- `Pending` and nobody will ever wake the task: the consumer sleeps forever
+  | fuel           -- artefact of the fuel-bounded definition; proved absent for sufficient fuel
+  deriving DecidableEq, Repr
+
+def Seen.toOuter {R : Type} : Seen R → Option (OuterOut R)
+  | .out o _ _ => some o
+  | _ => none
+
+/-- a consumer under executor semantics: after `Pending` the task is polled again only if a wake-up
+is due (the inner stream holds the waker, or the waker was woken during the call). -/
+def execWith {R : Type} (poll : List InnerW → Poll R) : Nat → List InnerW → List (Seen R)
+  | 0, _ => [.fuel]
+  | f + 1, is =>
+    let p := poll is
+    let seen := Seen.out p.out p.innerPending (p.transportWoke || p.wokeSelf)
+    match p.out with
+    | .done => [seen]
+    | .panic => [seen]
+    | .pending => if p.innerPending || p.wokeSelf then seen :: execWith poll f p.rest else [.stalled]
+    | _ => seen :: execWith poll f p.rest
+
+def execTrace {R : Type} (dec : List Char → R) (is : List InnerW) : List (Seen R) :=
+  execWith (pollStep dec) (is.length + 1) is
+
+end Oas3.EventStream
